@@ -56,6 +56,16 @@ def main():
 
 
 def _run(a, out, patch, demo):
+    pins = []
+    old = ROOT / "seeded" / a.seed_id / "meta.json"
+    if old.exists():  # re-verification of a kept seed: keep its description unless given anew
+        o = json.loads(old.read_text())
+        a.needs = a.needs or o.get("needs_to_manifest", "")
+        a.tests = a.tests or o.get("repo_tests_with_patch", {}).get("selection", "")
+        a.checks = a.checks or " ".join(o.get("checks_with_patch", {}))
+        keep_history = o.get("check_history")
+    else:
+        keep_history = None
     meta = {"seed_id": a.seed_id, "breaks_property": a.prop, "needs_to_manifest": a.needs, "ran": [], "verified_at_repo_commit": sh(f"git -C {REPO} rev-parse --short HEAD").stdout.strip()}
     env = dict(os.environ, PYTHONPATH=f"{REPO}/src")
 
@@ -97,19 +107,34 @@ def _run(a, out, patch, demo):
                 lines = [l.strip()[:300] for l in r.stdout.splitlines() if "clause=" in l]
                 results[chk] = {"exit": r.returncode, "caught": r.returncode == 1 and "VIOLATION property=" in r.stdout, "seconds": round(time.time() - t0, 1),
                                 "first_report": lines[0] if lines else ""}
+                found = sorted(Path(envc["VF_REPLAY_DIR"]).glob(f"{chk}/*.json"))
+                if found and results[chk]["caught"]:
+                    pins.append((chk, found[0].read_text()))
                 shutil.rmtree(envc["VF_REPLAY_DIR"], ignore_errors=True)
                 meta["ran"].append(f"./check {chk} --tier quick with patch -> exit {r.returncode}")
             meta["checks_with_patch"] = results
         finally:
             sh(f"git -C {REPO} checkout -- .")
     meta["kept"] = bool(ok)
+    if keep_history:
+        meta["check_history"] = keep_history
     dest = ROOT / "seeded" / a.seed_id
     if ok:
         dest.mkdir(parents=True, exist_ok=True)
-        shutil.copy(patch, dest / "patch.diff")
-        shutil.copy(demo, dest / "demo.py")
-        if (out / "notes.md").exists():
-            shutil.copy(out / "notes.md", dest / "notes.md")
+        if out.resolve() != dest.resolve():
+            shutil.copy(patch, dest / "patch.diff")
+            shutil.copy(demo, dest / "demo.py")
+            if (out / "notes.md").exists():
+                shutil.copy(out / "notes.md", dest / "notes.md")
+        # the shrunk counterexample becomes a pinned replay: it holds on the unchanged tree and fails in seconds if this breakage returns
+        for chk, text in pins:
+            pin = ROOT / "replays" / chk / f"pin-{a.seed_id}.json"
+            pin.parent.mkdir(parents=True, exist_ok=True)
+            pin.write_text(text)
+            r = subprocess.run(["./check", chk, "--replay", str(pin), "--no-evidence"], cwd=str(ROOT), capture_output=True, text=True)
+            meta.setdefault("pinned_replays", {})[chk] = {"file": str(pin.relative_to(ROOT)), "exit_on_unchanged_tree": r.returncode}
+            if r.returncode != 0:
+                pin.unlink()
         (dest / "meta.json").write_text(json.dumps(meta, indent=1))
     print(json.dumps(meta, indent=1))
     return 0 if ok else 1
